@@ -65,7 +65,7 @@ def rule_r1(rep, repo):
     _run_until(B, strip_docstring(fb.node.body), pb)
     ga, gb = A.env[pa.targets[0].id], B.env[pb.targets[0].id]
     d = e5.diff(ga, gb)
-    if d is None:
+    if d is None or e5.algebraically_equal(ga, gb):
         rep.ok("R1.becke-routes-agree", "generate_weights~compute_atom_weight:product", fa.loc(),
                f"equal value graphs ({len(repr(ga))} chars) from distances to the product over partners")
     else:
@@ -104,7 +104,7 @@ def rule_r1(rep, repo):
     vb.env[sel_b] = va.ev(call.args[3])
     gb2 = vb.ev(sb[0].value)
     d = e5.diff(ga2, gb2)
-    if d is None:
+    if d is None or e5.algebraically_equal(ga2, gb2):
         rep.ok("R1.becke-routes-agree", "generate_weights~compute_atom_weight:selection", repo.rel("becke", single[0]),
                e5.show(ga2, 100))
     else:
